@@ -1,8 +1,8 @@
 package rules
 
 import (
-	"go/types"
 	"go/token"
+	"go/types"
 	"sort"
 	"strings"
 
@@ -181,7 +181,7 @@ func checkC15(c *Ctx) {
 	// ---- export-own-state ------------------------------------------------------------------------
 	// what is exported is the module's own store: an export that consults staking or bank state (is the validator
 	// still bonded? does the account still exist?) leaves out entries the running chain still holds
-	r.Min("C15.export-own-state", 1)
+	r.Min("C15.export-own-state", 2)
 	nForeign := 0
 	for _, fn := range sortedFuncs(expReach) {
 		if p.L.IsGenerated(fn.Pos()) || !p.IsModule(fn) {
@@ -196,6 +196,70 @@ func checkC15(c *Ctx) {
 	}
 	if nForeign == 0 {
 		r.Ok("C15.export-own-state", "all", "-", sprintf("no staking / bank / account keeper call in %d functions reachable from ExportGenesis", len(expReach)))
+	}
+
+	// ---- export-every-chain ----------------------------------------------------------------------
+	// the per-chain state is appended for every chain the export loop visits: no path of the loop body skips
+	// the append (a chain left out of the export restarts with empty cursors and replays its events)
+	for _, ef := range roots.ExportGen {
+		if !inPkg(ef, "mhub2/keeper") {
+			continue
+		}
+		var app *ssa.Call
+		ana.Instrs(ef, func(in ssa.Instruction) {
+			call, ok := in.(*ssa.Call)
+			if !ok || in.Parent() != ef {
+				return
+			}
+			if b, ok := call.Call.Value.(*ssa.Builtin); ok && b.Name() == "append" {
+				if el, ok := call.Type().Underlying().(*types.Slice); ok {
+					if n := ana.NamedOf(el.Elem()); n != nil && n.Obj().Name() == "ExternalState" {
+						app = call
+					}
+				}
+			}
+		})
+		if app == nil {
+			r.Undecided("C15.export-own-state", "every-chain:"+fname(ef), p.Pos(ef.Pos()), "no append of a per-chain ExternalState found in the export")
+			continue
+		}
+		// loop header: the innermost block that dominates the append and is reachable from it
+		var h *ssa.BasicBlock
+		for _, b := range ef.Blocks {
+			if b != app.Block() && b.Dominates(app.Block()) && reachFromTo(app.Block(), b) {
+				if h == nil || h.Dominates(b) {
+					h = b
+				}
+			}
+		}
+		okAll := h != nil
+		where := ""
+		if h != nil {
+			for _, s := range h.Succs {
+				if !reachFromTo(s, h) {
+					continue
+				}
+				seen := map[*ssa.BasicBlock]bool{}
+				stack := []*ssa.BasicBlock{s}
+				for len(stack) > 0 {
+					x := stack[len(stack)-1]
+					stack = stack[:len(stack)-1]
+					if seen[x] || x == app.Block() {
+						continue
+					}
+					seen[x] = true
+					if x == h {
+						okAll = false
+						continue
+					}
+					// a path that ends in a panic does not skip the chain silently
+					stack = append(stack, x.Succs...)
+				}
+			}
+			where = c.pos(app)
+		}
+		r.Check(okAll, "C15.export-own-state", "every-chain:"+fname(ef), where, "every chain visited by the export loop gets its state appended",
+			"the export loop can skip a chain (a path returns to the loop header without appending the chain's state): that chain restarts without its event cursors, pool and delegate keys")
 	}
 
 	// ---- faithful-import -------------------------------------------------------------------------
@@ -431,10 +495,9 @@ func (c *Ctx) checkUnconditionalImport(imp *ssa.Function, minN int) {
 		if len(src) == 0 {
 			return
 		}
-		if src["ExternalState.ExternalEventVoteRecords"] && prefix == "LastEventNonceByValidatorKey" {
-			// frozen exception: per-validator nonces derived from vote records are a max-merge by construction
-			return
-		}
+		// per-validator nonces derived from vote records are a max-merge: the write may additionally depend on a
+		// comparison with the value already stored under the same prefix (condition (iv) below)
+		maxMerge := src["ExternalState.ExternalEventVoteRecords"] && prefix == "LastEventNonceByValidatorKey"
 		n++
 		bad := ""
 		for _, b := range imp.Blocks {
@@ -484,6 +547,26 @@ func (c *Ctx) checkUnconditionalImport(imp *ssa.Function, minN int) {
 					}
 				}
 				if own {
+					continue
+				}
+			}
+			// (iv) max-merge: an ordering comparison between the source value and a read of the written prefix
+			if maxMerge && (cd.Op == token.GTR || cd.Op == token.LSS || cd.Op == token.GEQ || cd.Op == token.LEQ) {
+				readsSame := false
+				for _, v := range []ssa.Value{cd.X, cd.Y} {
+					for _, vals := range p.Leaves(v, ana.PVOpt{Opaque: func(d ana.CalleeDesc) bool { return true }}).Vals {
+						for _, x := range vals {
+							if call, _ := ana.UnwrapCall(x); call != nil {
+								for _, callee := range p.Callees(call) {
+									if hasEff(c.Effects(callee), "store", "Get", prefix) {
+										readsSame = true
+									}
+								}
+							}
+						}
+					}
+				}
+				if readsSame {
 					continue
 				}
 			}
